@@ -15,6 +15,7 @@ import Gts.Lemmas.MarksDelAll
 import Gts.Lemmas.MarkGuardOps
 import Gts.Bridge.SeqDelete
 import Gts.Bridge.SeqSlice
+import Gts.Bridge.GbSlice
 namespace Gts.C03
 open Gts Loc
 
@@ -727,5 +728,64 @@ example : (0 : Int) ≤ 1 ∧ (1 : Int) ≤ 4 ∧ (4 : Int) ≤ (⟨[], [65, 67,
 example : (0 : Int) ≤ 2 ∧ (2 : Int) < 5 ∧ (5 : Int) ≤ (⟨[], [65, 67, 71, 84, 65, 67]⟩ : Seq).len ∧ (5 : Int) ≤ (4 : Nat) + 1 := by decide
 example : Bridge.sliceNorm (⟨[], [65, 67, 71, 84, 65, 67]⟩ : Seq).len (-1) = 5 ∧ Bridge.sliceNorm (⟨[], [65, 67, 71, 84, 65, 67]⟩ : Seq).len (-4) = 2 ∧
     (0 : Int) ≤ 2 ∧ (2 : Int) < 5 ∧ (5 : Int) ≤ (⟨[], [65, 67, 71, 84, 65, 67]⟩ : Seq).len ∧ (5 : Int) ≤ (4 : Nat) + 1 := by decide
+
+/-! ### the REGENERATED `GenBankFields.Slice` (go2lean gwriter: `Gts/Gen/GbSlice.lean`, `Gts/Bridge/GbSlice.lean`) -/
+
+/-- **`GenBankFields.Slice` as written**: for every value of the struct and every window the method does not
+panic, the result's region is the window, and its references are numbered `1, 2, …, m` in order — whatever was
+dropped. -/
+theorem gen_slice_refs_numbered (gbf : Gen.GbFields.GenBankFields) (a b : Int) :
+    ∃ g, Gen.GbSlice.genBankFieldsSlice intBytes Bridge.overlapModel Bridge.parseInfoModel gbf a b = some g ∧
+      g.Region = some (a, b) ∧
+      g.References.map (·.Number) = (List.range g.References.length).map (fun (k : Nat) => (k : Int) + 1) := by
+  refine ⟨_, Bridge.genBankFieldsSlice_eq gbf a b, rfl, ?_⟩
+  show (Bridge.sliceRefsFull _ a b gbf.References).map (·.Number) = _
+  have hm := Bridge.sliceRefsFull_model (Gen.GbSlice.moleculeCounter gbf.Molecule) a b gbf.References
+  have hn : (Bridge.sliceRefsFull (Gen.GbSlice.moleculeCounter gbf.Molecule) a b gbf.References).map (·.Number) =
+      ((Bridge.sliceRefsFull (Gen.GbSlice.moleculeCounter gbf.Molecule) a b gbf.References).map Bridge.toRef).map (·.number) := by
+    simp [Bridge.toRef, Function.comp_def]
+  have hl := congrArg List.length hm
+  unfold sliceRefs at hm hl
+  rw [hn, hm, renumber_numbers]
+  simp only [List.length_map] at hl
+  have hr : (renumber (List.filterMap (fun r => sliceRefInfo (Gen.GbSlice.moleculeCounter gbf.Molecule) a b r.info)
+      (List.map Bridge.toRef gbf.References))).length =
+      (List.filterMap (fun r => sliceRefInfo (Gen.GbSlice.moleculeCounter gbf.Molecule) a b r.info)
+        (List.map Bridge.toRef gbf.References)).length := by simp [renumber]
+  rw [hl, hr]
+
+/-- **a reference whose info is no range list survives `GenBankFields.Slice` verbatim** (as written): when every
+info is unparsable, the references come back as they were, renumbered -/
+theorem gen_slice_unparsable_kept (gbf : Gen.GbFields.GenBankFields) (a b : Int)
+    (h : ∀ r ∈ gbf.References, parseRefInfo (Gen.GbSlice.moleculeCounter gbf.Molecule) r.Info = none) :
+    ∃ g, Gen.GbSlice.genBankFieldsSlice intBytes Bridge.overlapModel Bridge.parseInfoModel gbf a b = some g ∧
+      g.References.map (·.Info) = gbf.References.map (·.Info) := by
+  refine ⟨_, Bridge.genBankFieldsSlice_eq gbf a b, ?_⟩
+  show (Bridge.sliceRefsFull _ a b gbf.References).map (·.Info) = _
+  unfold Bridge.sliceRefsFull
+  have hk : gbf.References.filterMap (Bridge.sliceRefFull (Gen.GbSlice.moleculeCounter gbf.Molecule) a b) = gbf.References := by
+    have : ∀ l : List Gen.GbFields.Reference, (∀ r ∈ l, parseRefInfo (Gen.GbSlice.moleculeCounter gbf.Molecule) r.Info = none) →
+        l.filterMap (Bridge.sliceRefFull (Gen.GbSlice.moleculeCounter gbf.Molecule) a b) = l := by
+      intro l
+      induction l with
+      | nil => intro _; rfl
+      | cons r l ih =>
+        intro hl
+        have h1 := hl r (List.mem_cons_self ..)
+        have h2 : Bridge.sliceRefFull (Gen.GbSlice.moleculeCounter gbf.Molecule) a b r = some r := by
+          simp [Bridge.sliceRefFull, sliceRefInfo_verbatim _ _ a b h1]
+        rw [List.filterMap_cons, h2, ih (fun x hx => hl x (List.mem_cons_of_mem _ hx))]
+    exact this _ h
+  rw [hk]
+  have : ∀ (k : Nat) (l : List Gen.GbFields.Reference), (Bridge.renumberFrom k l).map (·.Info) = l.map (·.Info) := by
+    intro k l
+    induction l generalizing k with
+    | nil => rfl
+    | cons r l ih => simp [Bridge.renumberFrom, ih]
+  exact this 0 _
+
+/-- non-vacuity: `(sites)` is no range list under the counter word `bases` -/
+example : parseRefInfo (Gen.GbSlice.moleculeCounter (Gen.GoStrings.wsLit "DNA")) (Gen.GoStrings.wsLit "(sites)") = none := by
+  decide +kernel
 
 end Gts.C03
